@@ -3,6 +3,7 @@ import json
 import os
 
 from .lib import cbool, clist, cn, coq_mismatches, HarnessError
+from .c08_c09_util import coq_eval_parts, coq_eval_sharded
 
 LEVEL = "proof"
 META = {
@@ -217,7 +218,10 @@ def run_bind(ctx):
             continue
         terms.append("(C %s %s %s)" % (coq_sig(c["sig"]), coq_call(c["call"]), o))
         refs.append(c)
-    bad_model, bad_spec = par_mismatches(ctx, "c08_bind", HEADER, terms, ["model_ok", "spec_ok"], shard=40 if quick else 400)
+    return ("B", HEADER, terms, ["model_ok", "spec_ok"]), lambda bad: bind_finish(ctx, summary, cases, sample, terms, refs, bad[0], bad[1])
+
+
+def bind_finish(ctx, summary, cases, sample, terms, refs, bad_model, bad_spec):
     for i in bad_spec:
         c = refs[i]
         if c["kind"] == "mismatch":
@@ -413,7 +417,10 @@ def run_unpack(ctx):
         else:
             terms.append("(PC %d %s %s %d %s)" % (c["min"], clist([KIND[k] for k in c.get("kinds") or []]), clist(args), c["nkw"], o))
         refs.append(c)
-    bad_model, bad_spec = par_mismatches(ctx, "c08_unpack", UHEADER, terms, ["model_ok", "spec_ok"], shard=40 if quick else 400)
+    return ("U", UHEADER, terms, ["model_ok", "spec_ok"]), lambda bad: unpack_finish(ctx, summary, terms, refs, bad[0], bad[1])
+
+
+def unpack_finish(ctx, summary, terms, refs, bad_model, bad_spec):
     for i in bad_spec:
         c = refs[i]
         if c["mismatch"]:
@@ -437,8 +444,14 @@ def run_unpack(ctx):
 
 def run(ctx):
     ctx.proofs()
-    cov = run_bind(ctx)
-    cov.update(run_unpack(ctx))
+    pb, fb = run_bind(ctx)
+    pu, fu = run_unpack(ctx)
+    if ctx.quick():
+        bad = coq_eval_parts(ctx, "c08_all", [pb, pu])
+    else:
+        bad = coq_eval_sharded(ctx, "c08", [pb, pu], shard=500)
+    cov = fb(bad["B"])
+    cov.update(fu(bad["U"]))
     cov["evaluations"] += cov["unpack_evaluations"]
     cov["distinct_nontrivial"] += cov["unpack_evaluations"]
     return ctx.finish(LEVEL, cov, assumptions=[
